@@ -233,3 +233,43 @@ func VerifC01_RegenerateReal() {
 	_, err := AssembleFile(context.Background(), target, idx, st, []Seed{seed}, AssembleOptions{N: n, InvalidSeedAction: InvalidSeedActionRegenerate})
 	verifCheckAssembled(target, blob, err, true)
 }
+
+// VerifC01_RepeatedSeedRanges: a repetitive blob whose plan takes several ranges from one seed,
+// among them ranges that start at the same seed offset with different lengths (A B | X | A B C
+// against a seed A B C), with one seed chunk (solver-chosen) altered after indexing.  Every
+// planned range is validated: with bail-out the damage is reported, with skip the extract
+// still succeeds from the store; a success is the blob.
+func VerifC01_RepeatedSeedRanges() {
+	vSchedFixed(true)
+	vPreempt(0)
+	letters := []byte("ABXABC")
+	if vChoose("layout", 2) == 1 {
+		letters = []byte("ABCXAB") // the longer range first
+	}
+	st := &verifStore{}
+	idx := Index{Index: FormatIndex{FeatureFlags: CaFormatSHA512256, ChunkSizeMin: 1, ChunkSizeAvg: 1, ChunkSizeMax: 1}}
+	for c, l := range letters {
+		id := st.add([]byte{l})
+		idx.Chunks = append(idx.Chunks, IndexChunk{ID: id, Start: uint64(c), Size: 1})
+	}
+	dir := vTempDir()
+	target, seedPath := dir+"/out", dir+"/seed"
+	seed := []byte("ABC")
+	sidx := Index{Index: idx.Index}
+	for c := range seed {
+		sidx.Chunks = append(sidx.Chunks, IndexChunk{ID: Digest.Sum(seed[c : c+1]), Start: uint64(c), Size: 1})
+	}
+	damaged := vChoose("damaged-seed-chunk", 4) // 3: none
+	onDisk := append([]byte(nil), seed...)
+	if damaged < 3 {
+		onDisk[damaged] ^= 0x20
+	}
+	os.WriteFile(seedPath, onDisk, 0644)
+	if vChoose("prior-garbage", 2) == 1 {
+		os.WriteFile(target, []byte("zzzzzz"), 0644)
+	}
+	s, _ := NewIndexSeed(target, seedPath, sidx)
+	action := []InvalidSeedAction{InvalidSeedActionBailOut, InvalidSeedActionSkip}[vChoose("invalid-seed-action", 2)]
+	_, err := AssembleFile(context.Background(), target, idx, st, []Seed{s}, AssembleOptions{N: 1, InvalidSeedAction: action})
+	verifCheckAssembled(target, letters, err, damaged == 3 || action == InvalidSeedActionSkip)
+}
